@@ -16,6 +16,15 @@ def job_roundtrip(ses, proto, fkind, akind):
     tag = '%s footer=%s assertion=%s' % (proto, fkind, akind)
     n_ok = 0
     for se, re_ in E:
+        # the core builder object (self) is left as it was: a second token from the same builder is built from the same payload / footer / assertion
+        if is_ok(re_) and getattr(se, 'self_cell', None) is not None:
+            after = se.store[se.self_cell]; names = w.fields('Paseto'); fa = dict(zip(names, after[3])); fb = dict(zip(names, se.self_before[3]))
+            for fld in names:
+                if fld in ('header',): continue
+                if not same_value(fa[fld], fb[fld]):
+                    ses.violation('%s: try_encrypt/try_sign changes the builder\'s `%s` (%s -> %s): the next token built from it differs' % (tag, fld, str(fb[fld])[:50], str(fa[fld])[:50]), {},
+                                  {'kind': 'core_builder_reuse', 'proto': proto, 'fkind': fkind, 'akind': akind})
+    for se, re_ in E:
         if not is_ok(re_):
             rec = ses.obligation('%s: encrypt/sign path %s is infeasible for valid inputs' % (tag, describe(re_)), se.pc,
                                  values=[inp.K, inp.N, utf8(inp.M), utf8(inp.F), utf8(inp.A)])
